@@ -325,7 +325,8 @@ class ScriptSession:
     pause/wait only while it believes the machine runs, continue/step/inspect only after a stopped event;
     after `continue` it waits for the `continued` event, after a step for the response and then a stopped event."""
 
-    def __init__(self, port, workspace, source_path, test_name="t", timeout=4.0, lines_default=False):
+    def __init__(self, port, workspace, source_path, test_name="t", timeout=4.0, lines_default=False, bp_column=None):
+        self.bp_column = bp_column               # SourceBreakpoint.column sent with every breakpoint (1-based), None = no column
         self.lines_default = lines_default       # initialize without linesStartAt1/columnsStartAt1 (the protocol's default is true)
         self.dap = Dap(port)
         self.ws, self.src, self.test, self.timeout = workspace, source_path, test_name, timeout
@@ -373,7 +374,8 @@ class ScriptSession:
             groups[bool(lib)] = []
         for is_lib, ls in sorted(groups.items()):
             path = os.path.join(os.path.dirname(self.src), "lib.asm") if is_lib else self.src
-            r = self.dap.request("setBreakpoints", {"source": {"path": path}, "breakpoints": [{"line": l} for l in ls]}, self.timeout)
+            bps = [{"line": l} if self.bp_column is None else {"line": l, "column": self.bp_column} for l in ls]
+            r = self.dap.request("setBreakpoints", {"source": {"path": path}, "breakpoints": bps}, self.timeout)
             if not r or not r.get("success"):
                 self.failed = "setBreakpoints failed"
 
